@@ -73,6 +73,9 @@ func writeManifest() error {
 			Technique:  c.Technique,
 		})
 		serves[c.Harness] = append(serves[c.Harness], c.Property)
+		for _, a := range c.Arms {
+			serves[a.Harness] = append(serves[a.Harness], c.Property)
+		}
 	}
 	var nas []na
 	claimed := map[string]bool{}
